@@ -13,7 +13,7 @@ def handle : List Sexp → Option Sexp
       let g := analyse (← parseSpec spec)
       let dec ← parseDecider dec
       if !deciderValid g dec then pure (list [atom "err", atom "library"]) else
-      pure (resSx valSx (randomTree g dec bigFuel (mkSt (← draws.asNats?))))
+      pure (resSx valSx (randomTree g dec bigFuel (mkSynSt (← draws.asNats?))))
   | [atom "prop_depth", mx, v] => do
       pure (ofBool (decide ((← parseVal v).depth ≤ (← mx.asNat?))))
   | [atom "min_depth", spec] => do
